@@ -5,8 +5,7 @@
   it is the hand-written model `skip` outcome for outcome, so everything proved about the model — never a panic,
   progress, exactly the length of the first record protowire accepts — holds of the Go text itself, for every input
   shorter than 2^62 bytes. The fuel the translation gives the loops (`len(dAtA)+1` records, 11 bytes per varint)
-  always suffices: the model's only error outcomes are eof / overflow / invalidLength / endGroup / illegalWire (by its
-  definition), so equality with the model leaves no room for the translation's "out of fuel" outcome.
+  always suffices (`C15_src_Skip_fuel_suffices`: the model never produces the translation's "out of fuel" outcome).
 -/
 import Pulsar.Proofs.GoSrcSkip
 import Pulsar.Properties.C15
@@ -45,6 +44,18 @@ theorem C15_src_Skip_len (bs : Bytes) (n : Nat) (hl : bs.length < 46116860184273
     (h : consumeField bs = .ok n) : Xf.runtime_Skip bs = .ok (n : Int) := by
   rw [src_Skip bs hl, skip_len_of_consumeField bs n (by omega) h]
   rfl
+
+/-- the loops never run out of the fuel the translation gave them: `.err .other` is not an outcome -/
+theorem C15_src_Skip_fuel_suffices (bs : Bytes) (hl : bs.length < 4611686018427387904) :
+    Xf.runtime_Skip bs ≠ .err .other := by
+  rw [src_Skip bs hl]
+  have hs := skip_ne_other bs
+  cases h : skip bs with
+  | ok m => simp [natRes]
+  | panic => simp [natRes]
+  | err e =>
+    simp only [natRes, ne_eq, Res.err.injEq]
+    intro he; subst he; exact hs h
 
 end Pulsar
 
